@@ -29,7 +29,7 @@ NAMES = [
     "banner.png", "MyBANNER.JPG", "xbn.PNG", "bnx.png", "background.png", "Song-bg.jpg", "bgm.txt", "cdtitle.gif", "CDTitle2.png",
     "jk_x.png", "xjk_.png", "jacket.jpg", "AlbumArt.bmp", "x-cd.png", "x-cd2.png", "x disc.png", "x title.png",
     "song.OGG", "song.mp3x", "track.wav", "bn", "notes.txt", "readme.bg", "Banner-BG.gif",
-    "a.mp3", "b.oga", "old_mp3", "cover_png", "CDTİTLE.png", "cdtıtle.png",
+    "a.mp3", "b.oga", "old_mp3", "cover_png", "CDTİTLE.png", "cdtıtle.png", ".ogg", ".png",
 ]
 PROP_OF = {"BANNER": "BANNER", "BACKGROUND": "BACKGROUND", "CDTITLE": "CDTITLE", "JACKET": "JACKET", "CDIMAGE": "CDIMAGE", "MUSIC": "MUSIC"}
 ATTR_OF = {"BANNER": "banner", "BACKGROUND": "background", "CDTITLE": "cdtitle", "JACKET": "jacket", "CDIMAGE": "cdimage", "MUSIC": "music"}
